@@ -83,6 +83,8 @@ let () =
   let impl_nb : (n, n list) Hashtbl.t = Hashtbl.create 16 in
   let impl_ent : (n, (n * (n * n)) list) Hashtbl.t = Hashtbl.create 16 in
   (* round counting since the last topology change *)
+  let proto = ref false in
+  let phys : (n, n list) Hashtbl.t = Hashtbl.create 16 in
   let rounds = ref 0 and pending : (n * n) list ref = ref [] and clean = ref true in
   let reset_rounds () = rounds := 0; pending := all_pairs (topo_of !model) in
   let diverge f m i = Printf.printf "DIVERGE %d %s %s model=%s impl=%s\n" !lineno !case f m i in
@@ -101,7 +103,7 @@ let () =
       match String.split_on_char ' ' line with
       | "case" :: k :: kind :: _ ->
           incr ncases; case := k ^ ":" ^ kind; model := []; Hashtbl.reset impl_nb; Hashtbl.reset impl_ent;
-          clean := true; reset_rounds ();
+          clean := true; reset_rounds (); proto := (kind = "proto"); Hashtbl.reset phys;
           Hashtbl.reset tbl_of_dec; Hashtbl.reset tbl_to_dec
       | "node" :: a :: h :: _ -> node_alias a (n_of_dec_raw h)
       | ["ev"; "rup"; i] -> apply (RouterUp (n_of_dec i)) true
@@ -124,6 +126,7 @@ let () =
           if not (adv_ok iadv) then oracle "adv_ok" ("router=" ^ dec_of_n i ^ " adv=" ^ adv);
           Hashtbl.replace impl_nb i (parse_nb nb);
           Hashtbl.replace impl_ent i (parse_ent ent);
+          if !proto then () else begin
           (match getr !model i with
            | None -> diverge "router" "absent" "present"
            | Some r ->
@@ -131,7 +134,7 @@ let () =
                if str_rib r <> rib then diverge "rib" (str_rib r) rib;
                if str_adv r <> adv then diverge "adv" (str_adv r) adv;
                if str_ent r <> ent then diverge "ent" (str_ent r) ent;
-               if d <> "x" && d <> b01 !last_dirty then diverge "dirty" (b01 !last_dirty) d)
+               if d <> "x" && d <> b01 !last_dirty then diverge "dirty" (b01 !last_dirty) d) end
       | [("chk" | "chkclean") as kind; _r] ->
           incr nchecks;
           (* the topology as the implementation reported it *)
@@ -153,6 +156,23 @@ let () =
                   oracle "table_ok" (Printf.sprintf "router=%s rounds=%d table=%s" (dec_of_n i) !rounds
                     (dashed ";" (List.map (fun (d, (c, h)) -> String.concat "/" [dec_of_n d; dec_of_n c; dec_of_n h]) tbl)))) g
           end
+      | ["phys"; i; nb] -> Hashtbl.replace phys (n_of_dec i) (parse_nb (split_field "nb=" nb))
+      | ["chkphys"; _w] ->
+          incr nchecks;
+          (* protocol level: after waiting, the neighbour tables must be the physical topology and every table
+             the shortest-path table of it *)
+          let srt l = List.sort (fun (a, _) (b, _) -> ncmp a b) (List.map (fun (i, l) -> (i, List.sort ncmp l)) l) in
+          let g = srt (Hashtbl.fold (fun i l acc -> (i, l) :: acc) phys []) in
+          let gi = srt (Hashtbl.fold (fun i l acc -> (i, l) :: acc) impl_nb []) in
+          let show g = String.concat " " (List.map (fun (i, l) -> dec_of_n i ^ ":" ^ dashed "," (List.map dec_of_n l)) g) in
+          if g <> gi then oracle "neighbours" (Printf.sprintf "physical=[%s] tables=[%s]" (show g) (show gi));
+          List.iter (fun (i, _) ->
+            let tbl = try Hashtbl.find impl_ent i with Not_found -> [] in
+            if not (table_ok g i tbl) then
+              oracle "table_ok_proto" (Printf.sprintf "router=%s physical=[%s] table=%s" (dec_of_n i) (show g)
+                (dashed ";" (List.map (fun (d, (c, h)) -> String.concat "/" [dec_of_n d; dec_of_n c; dec_of_n h]) tbl)))) g;
+          Hashtbl.reset phys; Hashtbl.reset impl_nb; Hashtbl.reset impl_ent
+      | "stat" :: _ -> ()
       | ["end"] -> ()
       | "harnessfail" :: rest -> oracle "harness" (String.concat " " rest)
       | [""] | [] -> ()
